@@ -112,4 +112,9 @@ def harnesses(tier):
     hs.append(Harness('reader_read', 'reader', h_reader_read, setup=setup_reader, native_ok=False, jobs=[dict(nbuf=n, maxcount=3, maxcap=96 if q else 160) for n in (1, 2, 3)], wall=900,
                       desc='Reader::read() itself (back-buffer handling of nested buffers, skipping of valid empty buffers, end-of-data marker, status) on a partially constructed Reader whose output queue is a script of 1-3 buffers with 0-3 nodes each, built by the real builders in internally growing buffers of symbolic capacity: every object once, in order, then the end-of-data buffer, then io_error',
                       bounds='<= 3 buffers x <= 3 objects, buffer capacity 64..%d, user lengths {0,5,6,14,22,23,40} (+0..2)' % (96 if q else 160)))
+    # skipping metadata changes nothing but the metadata: the dense-node decoder used with read_meta::no (a separate code path) against the same reference
+    import C02
+    hs.append(Harness('pbf_dense_without_metadata', 'decode', C02.h_dense, jobs=[dict(gran=g, layout=l, meta=0) for g in (100, 250, 1, 1000, 37) for l in ('SGgao', 'gaoSG')],
+                      desc='PBFPrimitiveBlockDecoder with read_meta::no on a block with two dense nodes: ids / latitudes / longitudes are the running sums of symbolic zig-zag deltas and the coordinates follow (offset + granularity * value) / 100 for symbolic offsets and several granularities, exactly as with metadata (same reference as C02 pbf_dense_nodes)',
+                      bounds='2 nodes, 28-bit symbolic deltas and offsets, granularity in {100, 250, 1, 1000, 37}'))
     return hs
